@@ -1,4 +1,5 @@
 mod gen;
+mod gen2;
 mod palette;
 mod rng;
 mod run;
@@ -28,11 +29,22 @@ fn main() {
                 "scope" => gen::scope(48, 2, size, 5, &mut out),
                 "scope1" => gen::scope(48, 1, size, 6, &mut out),
                 "parse" => gen::parse_stream(10, size, 7, &mut out),
+                "cells" => gen2::cells(3 + size, &mut out),
+                "prio" => gen2::prio(size, &mut out),
+                "dup" => gen2::dup(size, &mut out),
+                "orders" => gen2::orders(size, &mut rng, &mut out),
+                "pairs" => gen2::pairs(size, &mut out),
+                "single" => gen2::single(size, &mut rng, &mut out),
+                "clonescope" => gen2::clonescope(size, &mut out),
+                "junk" => gen2::junk(size, &mut rng, &mut out),
+                "parsefocus" => gen2::parsefocus(size, &mut out),
+                "ascii" => gen2::ascii(size, &mut rng, &mut out),
+                "groups" => gen2::groups(size, &mut rng, &mut out),
                 _ => usage(),
             }
             gen::write(&out, &args[7]);
         }
-        Some("suites") => println!("hist family scope scope1 parse"),
+        Some("suites") => println!("hist family scope scope1 parse cells prio dup orders pairs single clonescope junk parsefocus ascii groups"),
         Some("run") if args.len() == 6 => {
             let input = std::io::BufReader::new(std::fs::File::open(&args[2]).expect("ops"));
             let mut full = BufWriter::new(std::fs::File::create(&args[3]).expect("full"));
